@@ -224,6 +224,20 @@ def restore_expect(world, facts, before, obs, slots, inscope_good):
         if stopped or k in done:
             continue
         dest_before = before.get(loc)
+        if loc.endswith(b"/") and loc.rstrip(b"/") != b"":
+            # a recorded Path with a trailing slash (other implementations write directories so): what stands at the
+            # path without the slash is in the way all the same - a non-directory there must survive and stops the run
+            at = before.get(loc.rstrip(b"/"))
+            if at is not None and (at[0] != "d") and not (at[0] == "l" and _link_to_dir(before, loc.rstrip(b"/"))) \
+                    and not o.get("overwrite"):
+                stopped = True
+                notes["refused"] = True
+                notes["tags"].append("restore:trailing-slash-path-onto-nondir")
+                continue
+            slots[k] = "any"
+            notes["tags"].append("restore:trailing-slash-path")
+            notes["stop_checking"] = True
+            break
         if loc in restored_locs:
             # restored earlier in this very run: it exists now
             if o.get("overwrite"):
